@@ -107,15 +107,42 @@ def check_transforms(rec, part, depth, n, spec, default, fmts, mutable, authorit
         if ok:
             coords_inside(rec, part, case, r, what)
 
-    # split of every rank
+    # split of every rank, every split family
+    def partition_ranges(r, case, d, what):
+        """The partitions of one split fiber: ascending upper coordinates, pairwise disjoint ascending active ranges."""
+        def fibers_at(f, lvl):
+            if lvl == 0:
+                yield f
+                return
+            for p in f.payloads:
+                if is_fiber(p):
+                    yield from fibers_at(p, lvl - 1)
+        for up in fibers_at(r.getRoot(), d):
+            cs = list(up.coords)
+            if cs != sorted(set(cs)):
+                rec.violation(part, "partition coordinates not ascending", case, "partition coordinates ascend (%s)" % what, cs, sorted(set(cs)))
+                return
+            acts = [p.getActive() for p in up.payloads if is_fiber(p)]
+            for a, b in zip(acts, acts[1:]):
+                if a is not None and b is not None and not isinstance(a[0], tuple) and not (a[1] <= b[0]):
+                    rec.violation(part, "partition active ranges overlap", case,
+                                  "the active ranges of consecutive partitions are disjoint and ascending (%s)" % what, acts, None)
+                    return
+
+    m = max(2, n // 3)
+    kinds = [("splitUniform", lambda d: t.splitUniform(2, depth=d)), ("splitUniform", lambda d: t.splitUniform(m, depth=d)),
+             ("splitEqual", lambda d: t.splitEqual(2, depth=d)), ("splitUnEqual", lambda d: t.splitUnEqual([m, 2, m], depth=d)),
+             ("splitNonUniform", lambda d: t.splitNonUniform([0, m, n - 1], depth=d))]
     for d in range(depth):
-        case = dict(base, op="splitUniform", d=d)
-        ok, r = attempt(rec, part, case, lambda: t.splitUniform(2, depth=d), "split runs")
-        if ok:
-            X = ids[d]
-            exp_ids = ids[:d] + [X + ".1", X + ".0"] + ids[d + 1:]
-            exp_shape = (shape[:d] + [shape[d], shape[d]] + shape[d + 1:]) if shape else None
-            common(r, case, lambda rid: X if rid in (X + ".1", X + ".0") else rid, "split", exp_ids, exp_shape)
+        for kname, fn in kinds:
+            case = dict(base, op=kname, d=d)
+            ok, r = attempt(rec, part, case, lambda: fn(d), "split runs")
+            if ok:
+                X = ids[d]
+                exp_ids = ids[:d] + [X + ".1", X + ".0"] + ids[d + 1:]
+                exp_shape = (shape[:d] + [shape[d], shape[d]] + shape[d + 1:]) if shape else None
+                common(r, case, lambda rid: X if rid in (X + ".1", X + ".0") else rid, "split", exp_ids, exp_shape)
+                partition_ranges(r, case, d, kname)
     if depth >= 2:
         for d in range(depth - 1):
             case = dict(base, op="swap", d=d)
